@@ -1,4 +1,5 @@
 import OdxVerif.Proofs.CompExtPeek
+import OdxVerif.Proofs.CompExtMid
 /-! Compositional components, extension W11 (5): **DYNAMIC-ENDMARKER-FIELD**.
     `DynamicEndmarkerField.encode_into_pdu`: the items (the last one inherits `is_end_of_pdu`), then — unless at the end of the
     PDU — the termination value through the DYN-END-DOP, after which the cursor is PUT BACK in front of it ("the end marker is
